@@ -3,6 +3,8 @@
 //@verus-arg feature="css"
 // R10: StyleData (the parsed CSS) and the decorator type are opaque.  R19: `mut self` receivers are rebound.
 use vstd::prelude::*;
+macro_rules! html_trace { ($($t:tt)*) => {} }
+macro_rules! html_trace_quiet { ($($t:tt)*) => {} }
 verus! {
 struct StyleData { x: u8 }
 impl Clone for StyleData { #[verifier::external_body] fn clone(&self) -> (r: Self) ensures r == *self { unimplemented!() } }
